@@ -52,6 +52,17 @@ type V struct {
 	BS  []bool    `param:"bs" query:"bs" form:"bs" header:"X-Bs" json:"bs" xml:"bs" cbor:"bs"`
 }
 
+// N: nested targets (bracket and dot notation address the elements of a slice of structs by number)
+type N struct {
+	Items []NItem `query:"items" form:"items"`
+	Inner NItem   `query:"inner" form:"inner"`
+}
+
+type NItem struct {
+	Name string `query:"name" form:"name"`
+	X    int    `query:"x" form:"x"`
+}
+
 type Case struct {
 	Source string // query | form | multipart | header | cookie | json | xml | cbor | uri
 	Split  bool
@@ -365,6 +376,9 @@ func checkRaw(c RawCase) vk.Verdict {
 		results["body"] = fmt.Sprint(ctx.Bind().Body(&b))
 		m := map[string][]string{}
 		results["querymap"] = fmt.Sprint(ctx.Bind().Query(&m))
+		var nq, nf N
+		results["nested-query"] = fmt.Sprint(ctx.Bind().Query(&nq))
+		results["nested-form"] = fmt.Sprint(ctx.Bind().Form(&nf))
 		return ctx.SendString("done")
 	})
 	hdr := [][2]string{}
@@ -436,7 +450,7 @@ func checkRaw(c RawCase) vk.Verdict {
 	// (which of several conversion errors the message names first depends on map order: compare failed / did not fail)
 	outcome := func() string {
 		var parts []string
-		for _, k := range []string{"query", "form", "header", "cookie", "body", "querymap"} {
+		for _, k := range []string{"query", "form", "header", "cookie", "body", "querymap", "nested-query", "nested-form"} {
 			parts = append(parts, fmt.Sprintf("%s failed=%v", k, results[k] != "<nil>"))
 		}
 		return strings.Join(parts, ", ")
@@ -456,7 +470,8 @@ func checkRaw(c RawCase) vk.Verdict {
 }
 
 func genRaw(t *rapid.T) RawCase {
-	frag := rapid.SampledFrom([]string{"i=1", "i=x", "i=99999999999999999999", "is=1,2,x", "ss[]=a", "ss[0]=a", "a[b][c]=1", "a[b=2", "[", "]", "&", "=", "%zz", "%", "f64=1e999", "u8=256", "u8=-1", "b=maybe", "i8=128", "s=" + strings.Repeat("x", 50), "is=1&is=2", "..", "a.b.c=1", "fs=NaN", "fs=Inf"})
+	frag := rapid.SampledFrom([]string{"i=1", "i=x", "i=99999999999999999999", "is=1,2,x", "ss[]=a", "ss[0]=a", "a[b][c]=1", "a[b=2", "[", "]", "&", "=", "%zz", "%", "f64=1e999", "u8=256", "u8=-1", "b=maybe", "i8=128", "s=" + strings.Repeat("x", 50), "is=1&is=2", "..", "a.b.c=1", "fs=NaN", "fs=Inf",
+		"items[0][name]=a", "items[1][x]=7", "items[-1][name]=x", "items.-1.name=x", "items[-9223372036854775808][x]=1", "items[16001][name]=x", "items[99999999999999999999][name]=x", "items[][name]=x", "items[0]=x", "inner[x]=1", "inner.x=z", "inner[name][0]=q"})
 	c := RawCase{Split: rapid.Bool().Draw(t, "split")}
 	n := rapid.IntRange(0, 6).Draw(t, "nq")
 	var q []string
@@ -465,7 +480,7 @@ func genRaw(t *rapid.T) RawCase {
 	}
 	c.Query = strings.Join(q, "&")
 	c.ContentType = rapid.SampledFrom([]string{"", "application/json", "application/xml", "application/x-www-form-urlencoded", "multipart/form-data; boundary=b", "multipart/form-data", "application/cbor", "text/plain", "application/json; charset=utf-8", "APPLICATION/JSON", "application/vnd.x+json"}).Draw(t, "ct")
-	c.Body = []byte(rapid.OneOf(rapid.SampledFrom([]string{"", `{"i":1}`, `{"i":"x"}`, `{"is":[1,"a"]}`, `{"i":1e400}`, `{`, `[]`, `null`, `<V><i>1</i></V>`, `<V><i>x</i>`, "i=1&is=2&is=x", "--b\r\nContent-Disposition: form-data; name=\"i\"\r\n\r\nx\r\n--b--\r\n", "\xa1\x61i\x01", "\xa1\x61i\x61x", "\xff\xff", strings.Repeat("[", 500)}), rapid.StringN(0, 20, 60)).Draw(t, "body"))
+	c.Body = []byte(rapid.OneOf(rapid.SampledFrom([]string{"", `{"i":1}`, `{"i":"x"}`, `{"is":[1,"a"]}`, `{"i":1e400}`, `{`, `[]`, `null`, `<V><i>1</i></V>`, `<V><i>x</i>`, "i=1&is=2&is=x", "items[-1][name]=x&i=1", "items.0.x=1&items[2][x]=z", "--b\r\nContent-Disposition: form-data; name=\"i\"\r\n\r\nx\r\n--b--\r\n", "\xa1\x61i\x01", "\xa1\x61i\x61x", "\xff\xff", strings.Repeat("[", 500)}), rapid.StringN(0, 20, 60)).Draw(t, "body"))
 	c.Cookie = rapid.SampledFrom([]string{"", "i=1", "i=x; u8=300", "b=2", "f64=.", "i"}).Draw(t, "cookie")
 	c.Header = rapid.SampledFrom([]string{"", "1", "x", "1,2", "1, x", "99999999999999999999", "1e5"}).Draw(t, "header")
 	return c
